@@ -17,8 +17,8 @@ RULE = ("seeded P-code generator (UOD commands Short/Long/Long2/Other/Drive1 of 
         "Pause/Hold, Simulate/Simulate off, Block/Watch/Alarm/Macro, Wait, thresholds) x scripted FT01 trajectory; for "
         "every method: user Stop and user Restart issued before every tick 1..T of the run (T = ticks to quiescence, "
         "capped at 40), and a method line Stop / Restart inserted before every instruction line (also inside "
-        "Watch/Alarm/Block/Macro bodies); plus, per method, two seeded operator scripts applied between ticks before the "
-        "user Stop/Restart: (a) 1-2 UOD commands started by the operator through execute_control_command_from_user "
+        "Watch/Alarm/Block/Macro bodies); plus, per method, two seeded operator scripts applied between ticks before (the "
+        "second command of (a) possibly during) the user Stop/Restart: (a) 1-2 UOD commands started by the operator through execute_control_command_from_user "
         "(Long/Long2/Other/Drive1/Short, same-name and overlapping pairs included) at a random tick, (b) a force request "
         "(real handle_forceMsg) on a running method-issued UOD command; Stop and Restart at (up to 8 sampled) ticks of "
         "the window in which that command is alive (+2). distinct = (method shape hash, kind, tick or insert position, "
@@ -260,9 +260,12 @@ def check_case(case, res: Result):
             return default
 
         if inst:
-            ids = [c.instance_id for c in rig.uod.command_instances.values()]
-            viol.append((mech_for(ids, "C10.uod_instance_held_after_stop"),
-                         f"{kind} completed at tick {s} but uod.command_instances still holds {inst}"))
+            # one violation per mechanism: instances leaked for different reasons must not hide each other's key
+            by_mech: dict = {}
+            for c in rig.uod.command_instances.values():
+                by_mech.setdefault(mech_for([c.instance_id], "C10.uod_instance_held_after_stop"), []).append(c.name)
+            for mech, names in by_mech.items():
+                viol.append((mech, f"{kind} completed at tick {s} but uod.command_instances still holds {sorted(names)}"))
         res.count("operator_instances_finalised_checked", sum(1 for i in per if i in CR.USER_IIDS and per[i][0][1] == "init"))
         res.count("forced_instances_finalised_checked", sum(1 for i in per if i in forced))
         for iid in sorted(alive):
